@@ -558,6 +558,15 @@ def run_shard(spec, rec):
                 if i % 997 == 0:
                     rec.sample({"kind": pk, "class": ctx, "stream": S[:200].decode("latin1"), "cfg": cfg})
     elif kind == "targets":
+        # numeric fields at the interpreter's integer-conversion limit
+        for digits in (4299, 4300, 4301, 5000, 8000):
+            for fld in (b"Content-Length: %s\r\n", b"Transfer-Encoding: chunked\r\n\r\n%s\r\n"):
+                S = b"POST / HTTP/1.1\r\nHost: h\r\n" + (fld % (b"9" * digits)) + b"\r\nxx"
+                cfg = {"limits": (20000, 20000, 128)}
+                total_case("request", S, cfg, rec, "huge-number", rng)
+                server_case(S, rec, "huge-number", rng)
+                R1 = b"HTTP/1.1 200 OK\r\n" + (fld % (b"9" * digits)) + b"\r\nxx"
+                total_case("response", R1, cfg, rec, "huge-number", rng)
         for i in range(spec["n"]):
             t = gen_target(rng)
             m = rng.choice(["GET", "GET", "CONNECT", "OPTIONS", "POST"])
